@@ -61,6 +61,22 @@ CLAIMED = {
             "20 theorems in lean/LsProps/C13.lean about the model of Sweeper.sweep + LimitScanner (lean/LsModel/Sweeper.lean): a slice only removes entries that are, in that transaction, markers older than the cut-off and alters nothing else; resume rule correct when the resume entry was kept, deleted or changed; without application writes the result is the filter and independent of the slicing; with arbitrary application commits every untouched expired marker present at the start is gone at the end; non-native mode sweeps only private DBIs; a slice records a transaction iff it removed something.",
             "7/C13",
             "The wall-clock deadline is abstracted to 'a positive slice length' (the real one is a multiple of the scanner's check interval, regenerated constant). Completeness assumes the pass terminates (an application inserting ahead of the cursor forever is excluded). The sweep cut-off is scripted through a guard-tagged hook."),
+    "C01": ("Lean 4 proof on the abstract last-writer-wins fleet (convergence, no invention, winner; any number of instances, any schedule, merges of any snapshot) resting on the proved refinement lemmas (merge = join, Update pointwise, snapshot = complete image) + trace-level correspondence of real sync loops on one bucket with a convergence oracle",
+            "Theorems in lean/LsProps/C01.lean (C01_converged, C01_content_is_written, C01_winner) about the abstract fleet of lean/LsLemmas/AbsFleet.lean: once every instance has published its state and merged every other newest snapshot all hold identical logical content; that content consists only of written versions and dominates every written version (the LWW maximum), for all n >= 2 and all schedules of writes (equal timestamps across instances, timestamp 0), uploads and merges of any snapshot. The order facts are C02_order_strict_total. Tie to the code: byte-level refinement theorems C02_merge_is_join / C02_fold_is_joinAll, C19_update_pointwise, C06_complete, C11_step, and real sync loops of 1-3 instances single-stepped through guard-tagged yield points, compared with the Lean sync-loop model after every step, followed by a settle phase after which all instances must hold identical logical content (and identical application DBIs in non-native mode).",
+            "7/C01",
+            "The refinement from the byte-level fleet to the abstract fleet is established lemma by lemma (per transaction) and by the trace correspondence, not as one end-to-end simulation theorem. Non-native mode relies on the shared monotone clock (documented operating assumption). Known findings D7, D9, D13 apply to non-native traces."),
+    "C03": ("Lean 4 proof on the sync-loop model (native: every Lightning Stream transaction keeps or supersedes each stored version, for all schedules; non-native: invariant I1 and capture-before-project for all race-free schedules; machine-checked race witness) + trace-level correspondence of real sync loops with application commits at every yield point and a destroyed-write oracle",
+            "Theorems in lean/LsProps/C03.lean: C03_native / C03_native_txn (no bookkeeping hypothesis), C03_I1_partial, C03_capture_before_project, C03_write_survives (with C11_app_write_survives) for every schedule that avoids the window 'recorded application commit at the yield point directly after an EMPTY Lightning Stream write transaction'; C03_race_witness proves the full-strength statement false of the model in exactly that window (known finding D9), replayed on the real code through the yield hooks. Oracle: the harness commits application transactions at randomly chosen yield points of real loops and checks after every step that each committed write is still there or was superseded by a newer version.",
+            "7/C03",
+            "PARTIAL: known finding D9 (race on reused transaction ids) is excluded by hypothesis RaceFree and reported as KNOWN-FINDING when reproduced. LMDB's writer exclusion and transaction-id assignment are assumptions validated by the harness. Writes made while the syncer is down / not yet captured at a crash are stamped in the past by design (documented) and are outside the steady-state claim."),
+    "C09": ("Lean 4 proof on the sync-loop model (invariant I2: at the idle point every recorded application transaction made before this iteration's change check is published, for all race-free schedules; retry logic; machine-checked race witnesses) + trace-level correspondence with an idle-point publication oracle and failing stores",
+            "Theorems in lean/LsProps/C09.lean: C09_I2_partial, C09_I2_ids, C09_retry (k < budget failing stores end in exactly the dumped blob stored; budget exhausted ends the loop with an error, never 'as if stored'), C09_after_store, C09_startup_guard_dead, C09_race_witness / C09_race_witness_native (known finding D9). Oracle at trace level: whenever a real loop is at its sleep yield point, the newest own snapshot in the bucket must contain every (not superseded) application write committed before that iteration's change check.",
+            "7/C09",
+            "PARTIAL: known finding D9 excluded by RaceFree. The forced snapshot interval is disabled in model and traces. Exceptions stated in the theorem: receive-only, own instance still in the start-up waiting set, storage retry budget exhausted."),
+    "C05": ("Lean 4 proof of the witness invariant on the abstract bucket system (uploads, failed uploads, merges, restarts with kept or emptied LMDB, cleaner deletions of superseded and stale-instance snapshots; any number of instances, any schedule) + sync-loop theorems for the start-up guard + trace-level correspondence with crash/restart and a join-monotonicity oracle",
+            "Theorems in lean/LsProps/C05.lean about lean/LsLemmas/AbsBucket.lean: C05_witness_invariant(_ordered): every snapshot ever stored is dominated by the newest alive snapshot of some instance; C05_join_monotone; C05_restart_wiped_witness; C05_no_upload_while_waiting & co; C05_unguarded_send_loses_data (the guard is necessary). lean/LsProps/C05Loop.lean about the sync-loop model: C05_no_upload_before_own (no Store while the own instance is in the waiting set), C05_startup_send_only_if_empty, C05_own_leaves_waiting, C05_retry. The cleaner's side conditions used by the abstract steps are C12_newest_protected_partial / C12_committed_provenance. Oracle at trace level: real loops with crash/restart at yield points (LMDB kept or wiped) and failing stores; after every step the join over the newest decodable snapshot per instance must dominate the previous join.",
+            "7/C05",
+            "PARTIAL: durability of the blob store and of LMDB across a real process kill is not modelled (restart = new Syncer on the same or a wiped directory). The real cleaner is validated separately (C12), not inside the fleet traces. Application writes monotone per key per instance (the property's own assumption)."),
 }
 
 ALL = ["C%02d" % i for i in range(1, 21)]
